@@ -409,8 +409,10 @@ def main():
     except IOError:
         old = None
     if old != text:
-        with open(out_path, 'w') as f:
+        tmp = '%s.%d.tmp' % (out_path, os.getpid())      # atomic: concurrent checks may regenerate
+        with open(tmp, 'w') as f:
             f.write(text)
+        os.replace(tmp, out_path)
 
 
 if __name__ == '__main__':
